@@ -114,6 +114,40 @@ def serve (cfg : Cfg) : St → List (Nat × Nat × Nat) → List (List ReqOutcom
       let (outs, alive) := serve cfg st'' cs
       (r :: outs, alive)
 
+/-! ### requests with bodies
+
+`handle_connection` judges a request when its head has been read. What is left of the request's body is read and
+discarded *after* the response (normal or 429) has been written (`discard_rest`); if that is not possible — the body
+is longer than the discard limit, or never arrives — the connection is closed then. `drainable = false` stands for such
+a request. -/
+
+def serveRequestsB (cfg : Cfg) : St → Nat → Nat → List Bool → St × List ReqOutcome
+  | st, _, _, [] => (st, [])
+  | st, addr, now, drainable :: ds =>
+    let (st', act) := register cfg st addr now
+    match act with
+    | .drop => (st', [.closed])
+    | .send =>
+      if drainable then let (st'', r) := serveRequestsB cfg st' addr now ds; (st'', .tooMany :: r)
+      else (st', [.tooMany, .closed])
+    | .passed =>
+      if drainable then let (st'', r) := serveRequestsB cfg st' addr now ds; (st'', .ok :: r)
+      else (st', [.ok, .closed])
+
+/-- `serve` with a flag per connection: do its requests carry bodies that can be drained? -/
+def serveB (cfg : Cfg) : St → List (Nat × Nat × Nat × Bool) → List (List ReqOutcome) × Bool
+  | _, [] => ([], true)
+  | st, (a, t, n, d) :: cs =>
+    let (st', act) := register cfg st a t
+    if act = .drop then
+      let (outs, alive) := serveB cfg st' cs
+      ((if n = 0 then [] else [.closed]) :: outs, alive)
+    else
+      let (st'', r) := serveRequestsB cfg st' a t (List.replicate n d)
+      let (outs, alive) := serveB cfg st'' cs
+      -- the client stops at the first request that is not answered
+      (r.take n :: outs, alive)
+
 /-! ### several hosts on one port
 
 `CollectionBuilder::insert` makes the pre-host (accept-time) limiter a clone of the *first* host's limiter — the clone
